@@ -95,6 +95,25 @@ def _strategy(draw):
              "max_cap": draw(st.sampled_from([0.0, 1.0])) / float(tl.dt(spec["grid"])[0]),
              "extra_costs": 0.0, "wacc": 0.0, "start": draw(st.integers(k, T - 1)), "end": None}]
         spec["split"] = draw(st.sampled_from(SPLITS + [None]))
+    if shape == 4:
+        # two nodes that see exactly the same variables in some steps, with factors that are not proportional: a
+        # multi-commodity contract and a transport between the same two nodes, everything else there has ended
+        T = spec["grid"]["T"]
+        dt0 = float(tl.dt(spec["grid"])[0])
+        k = draw(st.integers(0, T - 1))
+        spec["prices"]["p_mc"] = [-draw(st.sampled_from([1.0, 4.0]))] * T      # the contract pays for being used
+        spec["prices"]["p_mk"] = draw(gen.price_series(T))
+        fa, fb = draw(st.sampled_from([(1.0, 0.5), (1.0, -0.5), (2.0, 1.0), (1.0, 1.0)]))
+        ends = ["nA", "nB"] if draw(st.booleans()) else ["nB", "nA"]
+        spec["assets"] += [
+            {"type": "multi", "name": "mc", "nodes": ["nA", "nB"], "factors": [fa, fb], "price": "p_mc", "min_cap": 0.0,
+             "max_cap": 8.0 / dt0, "extra_costs": 0.0, "wacc": 0.0, "min_take": None, "max_take": None},
+            {"type": "transport", "name": "tr_ab", "nodes": ends, "min_cap": 0.0, "max_cap": 16.0 / dt0,
+             "efficiency": draw(st.sampled_from([1.0, 0.5, 0.75])), "costs_const": 0.0, "wacc": 0.0},
+            {"type": "simple", "name": "mk_a", "nodes": ["nA"], "price": "p_mk", "min_cap": -16.0 / dt0, "max_cap": 16.0 / dt0,
+             "extra_costs": 0.0, "wacc": 0.0, "start": 0, "end": k},
+            {"type": "simple", "name": "mk_b", "nodes": ["nB"], "price": "p_mk", "min_cap": -16.0 / dt0, "max_cap": 16.0 / dt0,
+             "extra_costs": 0.25, "wacc": 0.0, "start": 0, "end": draw(st.integers(0, k))}]
     if draw(st.integers(0, 9)) < 3:
         gen.rename_nodes(draw, spec)
     return spec
